@@ -7,7 +7,11 @@ for f in sorted(glob.glob('/verif/seeded/*/meta.json')):
     m = json.load(open(f)); name = f.split('/')[-2]
     c = m['check']; a = m.get('check_after_strengthening')
     first = 'VIOLATION with failing input' if c['detected'] and c['with_failing_input'] else ('VIOLATION, no-failing-input-found' if c['detected'] else '**missed**')
-    after = '' if not a else ('VIOLATION with failing input — ' + a['what_changed'].split(';')[1].strip() if a['detected'] and a['with_failing_input'] else 'still not found')
+    if not a: after = ''
+    else:
+        verdict = ('VIOLATION with failing input' if a.get('with_failing_input') else 'VIOLATION, no-failing-input-found') if a['detected'] else 'still not found'
+        parts = a['what_changed'].split(';')
+        after = verdict + ' — ' + (parts[1].strip() if len(parts) > 1 else parts[0].strip())
     s = (m.get('summary') or '').replace('|', '/').replace('\n', ' ')
     n = (m.get('needs') or '').replace('|', '/').replace('\n', ' ')
     if len(s) > 230: s = s[:227] + '...'
